@@ -198,9 +198,9 @@ Fixpoint set_all (m : mro) (i : inst) (l : store) : inst :=
 
 Definition init_cache (m : mro) (i : inst) : inst :=
   if leaf_cache m then
-    if eff_frozen m && negb (leaf_slots m)
+    if eff_frozen m && negb (leaf_slots m) && negb (is_slot m KCache)
     then MkI ((KCache, PNone) :: i_dict i) (i_slots i)   (* _inst_dict['_attrs_cached_hash'] = None *)
-    else obj_setattr m i KCache PNone
+    else obj_setattr m i KCache PNone   (* _setattr(...) resp. self._attrs_cached_hash = None *)
   else i.
 
 Definition init (m : mro) (fv : fname -> val) : inst :=
